@@ -12,6 +12,7 @@ def rnd(seed):
     if '-r4' in seed: return 4
     if '-r5' in seed: return 5
     if '-r6' in seed: return 6
+    if '-r7' in seed: return 7
     return 0
 
 rows = []
@@ -38,7 +39,7 @@ for f in sorted(glob.glob('/verif/seeded/C*/meta.json')):
 def fmt(xs):
     return ', '.join(xs) if xs else '— (missed)'
 
-for r in (1, 2, 3, 4, 5, 6):
+for r in (1, 2, 3, 4, 5, 6, 7):
     rs = [x for x in rows if x['round'] == r]
     if not rs:
         continue
@@ -47,8 +48,8 @@ for r in (1, 2, 3, 4, 5, 6):
     if r >= 4:
         print('(first evaluation of round %d: only the check of the targeted property was run)' % r)
         print()
-    if r == 6:
-        print('(round 6 was first evaluated with the live checks as they stood when the seeds arrived, before any of them was looked at)')
+    if r >= 6:
+        print('(round %d was' % r + ' first evaluated with the live checks as they stood when the seeds arrived, before any of them was looked at)')
         print()
     print('| seed | breaks | confirmed | first evaluation%s | final evaluation (check of the targeted property; further checks only where it misses) | change | needs |' % (' (blind, frozen checks)' if 1 < r < 6 else ''))
     print('|---|---|---|---|---|---|---|')
